@@ -90,6 +90,8 @@ def run(c):
             gen_usable = True
             c.install_tmpl("C05/Inst_IR.v", "C05/C05.v")
             gen_ok = c.coq_compile(["Inst_IR.v", "C05.v"])
+            if gen_ok and thorough:
+                bhlib.coqchk(c, "RGW.C05")
     elif g1:
         gen_usable = c.coq_compile(["Gen_IR.v"])
 
